@@ -127,6 +127,23 @@ fn dump_crate<'tcx>(tcx: TyCtxt<'tcx>, name: &str) -> J {
 
     let unsafe_blocks = cx.unsafe_blocks();
 
+    // trait impls (for the census of `unsafe impl Send/Sync`)
+    let mut impls = vec![];
+    for ldid in tcx.hir_crate_items(()).definitions() {
+        let did = ldid.to_def_id();
+        if let DefKind::Impl { of_trait: true } = tcx.def_kind(did) {
+            let h = tcx.impl_trait_header(did);
+            let tr = h.trait_ref.instantiate_identity().skip_norm_wip();
+            impls.push(J::obj(vec![
+                ("trait", J::s(tcx.def_path_str(tr.def_id))),
+                ("self_ty", J::s(format!("{}", tr.self_ty()))),
+                ("unsafe", J::Bool(matches!(h.safety, rustc_hir::Safety::Unsafe))),
+                ("from_expansion", J::Bool(tcx.def_span(did).from_expansion())),
+                ("span", cx.span(tcx.def_span(did))),
+            ]));
+        }
+    }
+
     let opts = &tcx.sess.opts;
     J::obj(vec![
         ("crate", J::s(name)),
@@ -147,6 +164,7 @@ fn dump_crate<'tcx>(tcx: TyCtxt<'tcx>, name: &str) -> J {
         ("statics", J::Arr(statics)),
         ("consts", J::Arr(consts)),
         ("unsafe_blocks", J::Arr(unsafe_blocks)),
+        ("impls", J::Arr(impls)),
         ("fns", J::Arr(fns)),
     ])
 }
